@@ -114,6 +114,12 @@ def match_spec(cx):
         last = elem(seq, seq.n - 1)
         return start(seq, seq.n) + hi(last) - lo(last)
 
+    def rem1_at(seq, kk):
+        last = elem(seq, kk - 1)
+        return start(seq, kk) + hi(last) - lo(last)
+
+    cx.spec["rem1_at"] = rem1_at
+
     def same_str(a, b):
         a, b = as_str(a), as_str(b)
         return z3.And(a.n == b.n, a.arr == b.arr)
